@@ -22,7 +22,10 @@ Record case := Case {
   c_text_safe : bool;              (* every configured suffix is identifier-like *)
   c_tdts : text_exports;           (* from the declaration file text *)
   c_tjsL : text_exports;           (* from the loader's JS text (the loader's own print_js) *)
-  c_cli : option text_exports      (* from the file the real `nitrogql-cli generate` wrote, when the case was also run end to end *)
+  c_cli : option text_exports;     (* from the file the real `nitrogql-cli generate` wrote, when the case was also run end to end *)
+  c_node : option (option (list str))
+    (* when node really imported the loader's module: None = it failed to load (SyntaxError),
+       Some keys = Object.keys of the module namespace *)
 }.
 
 Definition ops_eqb := list_eqb wop_eqb.
@@ -51,6 +54,10 @@ Definition text_agrees (ops : list wop) (t : text_exports) : bool :=
   list_eqb str_eqb (names_of_exports (named_exports (scan ops))) (fst t)
   && list_eqb str_eqb (default_names (scan ops)) (snd t).
 
+Definition export_key (x : ename * pos) : str :=
+  match fst x with Named n => n | Default => s "default" end.
+Definition subset_str (a b : list str) : bool := forallb (fun x => existsb (str_eqb x) b) a.
+
 (** model output = implementation output, on complete op lists; the model's view of what the
     loader parses = what the loader parses; the guard on bodies holds for the real bodies; the
     exports read off the model's op lists = the export lines of the real texts *)
@@ -62,6 +69,15 @@ Definition agree (c : case) : bool :=
   && doc_eqb (loader_view d) (c_docL c)
   && Nat.eqb (length (c_B c)) (length (defs d))
   && bodies_ok (c_B c)
+  (* the model's runtime reading against a real JS engine *)
+  && (let mjL := scan (js_of_config (c_cfg c) (loader_view d) (c_B c)) in
+      match c_node c with
+      | None => true
+      | Some None => negb (loadable mjL)
+      | Some (Some keys) =>
+          loadable mjL && subset_str keys (map export_key (value_exports mjL))
+          && subset_str (map export_key (value_exports mjL)) keys
+      end)
   && (if c_text_safe c then
         text_agrees (dts_of_config (c_cfg c) d (c_B c)) (c_tdts c)
         && text_agrees (js_of_config (c_cfg c) (loader_view d) (c_B c)) (c_tjsL c)
@@ -105,8 +121,6 @@ Definition bindings_carry (ids : list (str * rid)) (d : doc) (ops : list wop) : 
     | Some i => existsb (fun df => pos_eqb (decl_pos df) p && rid_eqb (id_of_def df) i) (defs d)
     end end) (js_bindings ops).
 
-Definition subset_str (a b : list str) : bool := forallb (fun x => existsb (str_eqb x) b) a.
-
 Definition holds (c : case) : bool :=
   let md := scan (c_dts c) in
   let mj := scan (c_js c) in
@@ -114,8 +128,18 @@ Definition holds (c : case) : bool :=
   (* each value export of the declaration file is exported under the same name, for the same
      definition, by the JS module printed from the same document ... *)
   incl_exports (value_exports md) (value_exports mj)
-  (* ... and by the module the loader prints (positions compared modulo the file index) *)
+  (* ... and by the module the loader prints (positions compared modulo the file index), which
+     must be loadable: duplicate declarations are a SyntaxError and nothing is exported *)
   && incl_exports (map zero_export (value_exports md)) (value_exports mjL)
+  (* runtime reading, asked of documents that respect GraphQL's own name-uniqueness rules *)
+  && (if doc_valid_names (c_doc c) then
+        incl_exports (map zero_export (value_exports md)) (runtime_exports mjL)
+        && match c_node c with
+           | None => true
+           | Some None => match value_exports md with [] => true | _ => false end
+           | Some (Some keys) => subset_str (map export_key (value_exports md)) keys
+           end
+      else true)
   && list_eqb str_eqb (default_names md) (default_names mj)
   && list_eqb str_eqb (default_names md) (default_names mjL)
   && bindings_carry (c_ids c) (c_doc c) (c_js c)
